@@ -19,6 +19,10 @@ from harness import c17_legs as LG
 
 FORMATS = LG.FORMATS
 
+# Config.__del__ warns about unused options whenever a generated Config is garbage collected -- outside of any
+# catch_warnings block; these lines are noise on the check's stderr, not results.
+warnings.filterwarnings('ignore', message='unused option', category=UserWarning)
+
 # --------------------------------------------------------------------------------------------
 # random object-graph specs
 
